@@ -22,6 +22,40 @@ theorem leafOk_eff (a : Arch) (c : Ctx) : (effArch a c).leafOk = a.leafOk := by
 
 theorem ptr_pos (a : Arch) : 0 < a.ptr := by cases a <;> decide
 
+/-! ### stack words, in either byte order, fit their width -/
+
+theorem Mem.byte_lt (m : Mem) (i : Nat) : m.byte i < 256 := by
+  unfold Mem.byte; exact UInt8.toNat_lt _
+
+theorem Mem.leAt_lt (m : Mem) (off w : Nat) : m.leAt off w < 256 ^ w := by
+  induction w generalizing off with
+  | zero => simp [Mem.leAt]
+  | succ w ih =>
+    have hb := m.byte_lt off
+    have := ih (off + 1)
+    simp only [Mem.leAt, Nat.pow_succ]
+    omega
+
+theorem Mem.beAt_lt (m : Mem) (off w : Nat) : m.beAt off w < 256 ^ w := by
+  induction w generalizing off with
+  | zero => simp [Mem.beAt]
+  | succ w ih =>
+    have hb := m.byte_lt off
+    have := ih (off + 1)
+    have hmul : m.byte off * 256 ^ w ≤ 255 * 256 ^ w := Nat.mul_le_mul_right _ (by omega)
+    simp only [Mem.beAt, Nat.pow_succ]
+    omega
+
+theorem Mem.wordAt_lt (m : Mem) (off w : Nat) : m.wordAt off w < 256 ^ w := by
+  unfold Mem.wordAt
+  split
+  · exact m.beAt_lt off w
+  · exact m.leAt_lt off w
+
+/-- a little-endian memory (the default) reads little-endian words -/
+theorem Mem.wordAt_le (m : Mem) (off w : Nat) (h : m.be = false) : m.wordAt off w = m.leAt off w := by
+  simp [Mem.wordAt, h]
+
 /-! ### the scan loop -/
 
 theorem scanFrom_spec {ok : Nat → Bool} {mem : Mem} {ptr lim sp : Nat} :
